@@ -5,8 +5,9 @@ import Mamba.Drv.C04
 /-! Driver for the protocols of C03 (see `harness/c03.go`):
 `c03chain <pred> <place> <m> <N> lv <level 0> … <level N>` → verdict of the verified checker `GSearch.checkLevels`;
 `c03cls <n> <m> <pred> <place>` → the tabulated number of isomorphism classes (`count=-` when not tabulated);
-`c03fn <nv> <mask> tab <entry> …` → the verdict of the `Search` model's `isCanonical` and the masks its `addAugmentations`
-pushes for one graph (function-level correspondence, see `harness/c03fn.go`). -/
+`c03fnx <nv> <mask> tab <entry> …` → the verdict of the `Search` model's `isCanonical` and the masks its `addAugmentations`
+pushes for one graph (function-level, state-level/strict correspondence, see `harness/c03fn.go`);
+`c03fn <nv> <mask>` → `ok` (the line only carries a property-level oracle on the implementation side). -/
 namespace Drv.C03
 open GSearch Proto
 
@@ -136,6 +137,14 @@ def handleFn : List String → String
         | .outOfFuel => "oracle-miss"
       | _ => "bad-op"
     | _, _, _ => "bad-op"
+  | _ => "bad-op"
+
+/-- `c03fn <nv> <mask>`: judged on the implementation side only (rule-independent oracle); the model has nothing to add -/
+def handleFnOk : List String → String
+  | [nvs, masks] =>
+    match nvs.toNat?, masks.toNat? with
+    | some nv, some mask => if nv < 2 ∨ nv > 14 ∨ mask ≥ 2 ^ (nv * (nv - 1) / 2) then "bad-op" else "ok"
+    | _, _ => "bad-op"
   | _ => "bad-op"
 
 end Drv.C03
